@@ -58,6 +58,7 @@ func (w *runWorld) ctor(key string) (keyed.Routine, int) {
 		in := &rinst{n: len(w.insts) + 1, inc: inc, ctx: ctx, tag: core.Tag(ctx), entered: c.Tick()}
 		w.insts = append(w.insts, in)
 		inc.insts = append(inc.insts, in)
+		c.Pub() // the instance's context is inspected by the drivers' oracles
 		if inc.active > 0 {
 			c.Fail("C07.K1.two-instances", "key %q: instance %d entered while an earlier instance of the same key (incarnation %d) has not returned", key, in.n, inc.id)
 		}
@@ -112,6 +113,7 @@ func (w *runWorld) maybeGate() {
 
 // markDead: the incarnation is removed; every instance of it must have a cancelled context now.
 func (w *runWorld) markDead(inc *incarnation, why string) {
+	w.c.Sub()
 	inc.dead = true
 	for _, in := range inc.insts {
 		if in.ctx.Err() == nil {
@@ -200,6 +202,7 @@ func (w *runWorld) ctxDriver(nops int) {
 			c.Descf("ctx-driver: SetContext(ctx%d, restart=%v)", tag, restart)
 			w.k.SetContext(ctx, restart)
 			w.ctxTag = tag
+			c.Sub()
 			for _, in := range w.insts {
 				if in.entered < inv && in.tag != tag && in.ctx.Err() == nil {
 					c.Fail("C07.K2.not-cancelled-on-context-change", "SetContext(other) returned, but instance %d (key %q, ctx %d) still has a live context", in.n, in.inc.key, in.tag)
@@ -216,6 +219,7 @@ func (w *runWorld) ctxDriver(nops int) {
 			c.Descf("ctx-driver: ClearContext")
 			w.k.ClearContext()
 			w.ctxTag = 0
+			c.Sub()
 			for _, in := range w.insts {
 				if in.entered < inv && in.ctx.Err() == nil {
 					c.Fail("C07.K2.not-cancelled-on-clearcontext", "ClearContext returned, but instance %d (key %q) still has a live context", in.n, in.inc.key)
@@ -228,6 +232,11 @@ func (w *runWorld) ctxDriver(nops int) {
 
 func (w *runWorld) checkQuiescent() {
 	c := w.c
+	// no timer may fire while the quiescent-point oracles run (GetKeys yields)
+	saved := c.S.TimerEarlyPermille
+	c.S.TimerEarlyPermille = 0
+	defer func() { c.S.TimerEarlyPermille = saved }()
+	c.Sub()
 	keys := w.k.GetKeys()
 	present := map[string]bool{}
 	for _, k := range keys {
@@ -243,6 +252,7 @@ func (w *runWorld) checkQuiescent() {
 			}
 		}
 	}
+	c.Sub()
 	for _, in := range w.insts {
 		if in.returned == 0 && in.ctx.Err() == nil {
 			c.S.Count("probe:live-instance-at-quiescence")
